@@ -1,7 +1,248 @@
-(* S5: Reorder (reorder.go).  PLACEHOLDER: identity when no provider is marked Reorder. *)
+(* S5: Reorder (reorder.go): constraint graph (strong / weak "comes after" edges, one pseudo node
+   per type and direction) and a priority topological sort. *)
 From Coq Require Import List Arith Bool.
 Import ListNotations.
 From NJ Require Import Base Registry Classify Select.
 
+Definition is_reorder (p : prov) : bool := d_reorder (s_d (p_s p)).
+
+Definition no_no (te : tyenv) (l : list nat) : list nat := filter (fun t => negb (t =? te_noT te)) l.
+
+(* sets of node numbers *)
+Definition sadd (x : nat) (l : list nat) : list nat := if memb x l then l else x :: l.
+Definition sdel (x : nat) (l : list nat) : list nat := remove_all x l.
+
+Record rnode := mkRnode { n_before : list nat; n_after : list nat; n_wbefore : list nat; n_wafter : list nat }.
+Definition empty_node := mkRnode [] [] [] [].
+
+Fixpoint nth_node (i : nat) (l : list rnode) : rnode :=
+  match l, i with
+  | [], _ => empty_node
+  | x :: _, 0 => x
+  | _ :: r, S i' => nth_node i' r
+  end.
+Definition upd_node (i : nat) (f : rnode -> rnode) (l : list rnode) : list rnode := upd_nth i f l.
+
+(* append to the list stored under key t *)
+Fixpoint madd (t x : nat) (m : list (nat * list nat)) : list (nat * list nat) :=
+  match m with
+  | [] => [(t, [x])]
+  | (k, l) :: r => if k =? t then (k, l ++ [x]) :: r else (k, l) :: madd t x r
+  end.
+Definition mget (t : nat) (m : list (nat * list nat)) : list nat :=
+  match alookup t m with Some l => l | None => [] end.
+
+(* -1 is represented by None *)
+Definition pair_after (i j : option nat) (acc : list (nat * nat)) : list (nat * nat) :=
+  match i, j with Some a, Some b => acc ++ [(a, b)] | _, _ => acc end.
+
+Record rstate := mkRs {
+  rs_strong : list (nat * nat);
+  rs_weak : list (nat * nat);
+  rs_down : list (nat * nat);        (* downTypes: type -> pseudo node *)
+  rs_up : list (nat * nat);          (* upTypes *)
+  rs_counter : nat;
+  rs_cannot : list nat;              (* cannotReorder *)
+  rs_lastNo : option nat             (* lastNoReorder *)
+}.
+
+Definition add_edge (strong : bool) (i : nat) (j : option nat) (st : rstate) : rstate :=
+  if strong then mkRs (pair_after (Some i) j (rs_strong st)) (rs_weak st) (rs_down st) (rs_up st) (rs_counter st) (rs_cannot st) (rs_lastNo st)
+  else mkRs (rs_strong st) (pair_after (Some i) j (rs_weak st)) (rs_down st) (rs_up st) (rs_counter st) (rs_cannot st) (rs_lastNo st).
+
+Section Build.
+  Variable te : tyenv.
+  Variable funcs : list prov.
+  Variable availDown availUp : list imd.
+  Variable provideByNotRequire : list (nat * list nat).   (* init's entries are recorded as absent (-1): skipped *)
+  Variable receivedNotReturned : list (nat * list nat).
+  Variable lastStatic : option nat.
+
+  Definition edges_for (i : nat) (p : prov) (st0 : rstate) : rstate :=
+    let st1 := if is_reorder p && group_eqb (p_group p) GRun then add_edge true i lastStatic st0 else st0 in
+    let st2 := if negb (is_reorder p)
+               then let s := add_edge true i (rs_lastNo st1) st1 in
+                    mkRs (rs_strong s) (rs_weak s) (rs_down s) (rs_up s) (rs_counter s) (rs_cannot s ++ [i]) (Some i)
+               else st1 in
+    let st3 := fold_left (fun st tRaw =>
+        match best_match te funcs availDown tRaw with
+        | None => st
+        | Some (t, _) =>
+          let st' := match alookup t (rs_down st) with
+                     | Some num => add_edge true i (Some num) st
+                     | None =>
+                       let c := rs_counter st in
+                       let s := add_edge true i (Some c) st in
+                       mkRs (rs_strong s) (rs_weak s) (rs_down s ++ [(t, c)]) (rs_up s) (S c) (rs_cannot s) (rs_lastNo s)
+                     end in
+          fold_left (fun s j => add_edge false i (Some j) s) (mget t provideByNotRequire) st'
+        end) (no_no te (pflow p FIn)) st2 in
+    fold_left (fun st tRaw =>
+        match best_match te funcs availUp tRaw with
+        | None => st
+        | Some (t, _) =>
+          let co := match s_consOpt (p_s p) with Some l => memb t l | None => false end in
+          let st' := match alookup t (rs_up st) with
+                     | Some num => add_edge (negb co) i (Some num) st
+                     | None =>
+                       let c := rs_counter st in
+                       let s := add_edge (negb co) i (Some c) st in
+                       mkRs (rs_strong s) (rs_weak s) (rs_down s) (rs_up s ++ [(t, c)]) (S c) (rs_cannot s) (rs_lastNo s)
+                     end in
+          fold_left (fun s j => add_edge false i (Some j) s) (mget t receivedNotReturned) st'
+        end) (no_no te (pflow p FRet)) st3.
+End Build.
+
+(* priority queue: (priority, node), kept sorted by priority *)
+Fixpoint pq_push (pr x : nat) (q : list (nat * nat)) : list (nat * nat) :=
+  match q with
+  | [] => [(pr, x)]
+  | (p, y) :: r => if pr <=? p then (pr, x) :: q else (p, y) :: pq_push pr x r
+  end.
+
+Record topo := mkTopo {
+  t_nodes : list rnode;
+  t_cannot : list nat;
+  t_unblocked : list (nat * nat);
+  t_weak : list (nat * nat);
+  t_done : list nat;
+  t_out : list nat        (* positions in output order *)
+}.
+
+Section Topo.
+  Variable te : tyenv.
+  Variable funcs : list prov.
+  Variable downTypes upTypes : list (nat * nat).
+  Let n := length funcs.
+
+  (* priority of node i: Reorder'd providers first (i - n), kept total by an offset of n *)
+  Definition prio (i : nat) : nat :=
+    if (i <? n) && flagp is_reorder funcs i then i else i + n.
+
+  Definition push_un (i : nat) (x : topo) : topo :=
+    mkTopo (t_nodes x) (t_cannot x) (pq_push (prio i) i (t_unblocked x)) (t_weak x) (t_done x) (t_out x).
+  Definition push_weak (i : nat) (x : topo) : topo :=
+    mkTopo (t_nodes x) (t_cannot x) (t_unblocked x) (pq_push (prio i) i (t_weak x)) (t_done x) (t_out x).
+  Definition set_nodes (ns : list rnode) (x : topo) : topo :=
+    mkTopo ns (t_cannot x) (t_unblocked x) (t_weak x) (t_done x) (t_out x).
+
+  (* release(n, i) *)
+  Definition release (m i : nat) (x : topo) : topo :=
+    if n <=? m then push_un m x else
+    let ns := upd_node m (fun nd => mkRnode (n_before nd) (sdel i (n_after nd)) (n_wbefore nd) (sdel i (n_wafter nd))) (t_nodes x) in
+    let x1 := set_nodes ns x in
+    let nd := nth_node m ns in
+    match n_after nd with
+    | [] => match n_wafter nd with [] => push_un m x1 | _ => push_weak m x1 end
+    | _ => x1
+    end.
+
+  Definition release_node (i : nat) (x : topo) : topo :=
+    let nd := nth_node i (t_nodes x) in
+    let ns := fold_left (fun ns m => upd_node m (fun d => mkRnode (n_before d) (n_after d) (n_wbefore d) (sdel i (n_wafter d))) ns)
+                        (n_wbefore nd) (t_nodes x) in
+    fold_left (fun x' m => release m i x') (sort_nat (n_before nd)) (set_nodes ns x).
+
+  Definition release_provider (i : nat) (p : prov) (x : topo) : topo :=
+    let x1 := fold_left (fun x' t => match alookup t downTypes with Some num => release num i x' | None => x' end)
+                        (no_no te (pflow p FOut)) x in
+    fold_left (fun x' t => match alookup t upTypes with Some num => release num i x' | None => x' end)
+              (no_no te (pflow p FRecv)) x1.
+
+  Definition process_one (i : nat) (rel : bool) (x : topo) : topo :=
+    if memb i (t_done x) then x else
+    let x1 := mkTopo (t_nodes x) (t_cannot x) (t_unblocked x) (t_weak x) (i :: t_done x) (t_out x) in
+    if n <? i then (if rel then release_node i x1 else x1) else
+    match getp funcs i with
+    | None => x1
+    | Some p =>
+      let x2 := mkTopo (t_nodes x1) (t_cannot x1) (t_unblocked x1) (t_weak x1) (t_done x1) (t_out x1 ++ [i]) in
+      if negb rel then x2 else release_provider i p (release_node i x2)
+    end.
+
+  Fixpoint topo_run (fuel : nat) (x : topo) : topo :=
+    match fuel with
+    | 0 => x
+    | S fuel' =>
+      match t_unblocked x with
+      | (_, i) :: q =>
+        topo_run fuel' (process_one i true (mkTopo (t_nodes x) (t_cannot x) q (t_weak x) (t_done x) (t_out x)))
+      | [] =>
+        match t_weak x with
+        | (_, i) :: q =>
+          topo_run fuel' (process_one i true (mkTopo (t_nodes x) (t_cannot x) (t_unblocked x) q (t_done x) (t_out x)))
+        | [] =>
+          match t_cannot x with
+          | i :: r =>
+            let released := match n_after (nth_node i (t_nodes x)) with [] => true | _ => false end in
+            topo_run fuel' (process_one i released (mkTopo (t_nodes x) r (t_unblocked x) (t_weak x) (t_done x) (t_out x)))
+          | [] => x
+          end
+        end
+      end
+    end.
+End Topo.
+
 Definition reorder_funcs (te : tyenv) (funcs : list prov) : res (list prov) :=
-  if existsb (fun p => d_reorder (s_d (p_s p))) funcs then Err EB_INTERNAL else Ok funcs.
+  if negb (existsb is_reorder funcs) then Ok funcs else
+  let n := length funcs in
+  let idx := seq_from 0 n in
+  let initPos := find_class ClInit funcs 0 in
+  (* availableDown / availableUp; init's parameters first, at layer 0 *)
+  let availDown0 := match initPos with
+                    | Some ip => match getp funcs ip with
+                                 | Some p => fold_left (fun m t => im_add t 0 ip m) (no_no te (pflow p FOut)) []
+                                 | None => [] end
+                    | None => [] end in
+  let availDown := fold_left (fun m i => match getp funcs i with
+                      | Some p => fold_left (fun m' t => im_add t i i m') (no_no te (pflow p FOut)) m
+                      | None => m end) idx availDown0 in
+  let availUp := fold_left (fun m i => match getp funcs i with
+                      | Some p => fold_left (fun m' t => im_add t i i m') (no_no te (pflow p FRet)) m
+                      | None => m end) idx [] in
+  let lastStatic := fold_left (fun acc i => if flagp (fun p => group_eqb (p_group p) GStatic && negb (is_reorder p)) funcs i
+                                            then Some i else acc) idx None in
+  let pbnr := fold_left (fun m i => match getp funcs i with
+                      | Some p => fold_left (fun m' t => if memb t (no_no te (pflow p FIn)) then m' else madd t i m')
+                                            (no_no te (pflow p FOut)) m
+                      | None => m end) idx [] in
+  let rnr := fold_left (fun m i => match getp funcs i with
+                      | Some p => fold_left (fun m' t => if memb t (no_no te (pflow p FRet)) then m' else madd t i m')
+                                            (no_no te (pflow p FRecv)) m
+                      | None => m end) idx [] in
+  let st := fold_left (fun st i => match getp funcs i with
+                      | Some p => edges_for te funcs availDown availUp pbnr rnr lastStatic i p st
+                      | None => st end) idx (mkRs [] [] [] [] (S n) [] None) in
+  let counter := rs_counter st in
+  let nodes0 := repeat empty_node counter in
+  let nodes1 := fold_left (fun ns (pr : nat * nat) =>
+                   upd_node (fst pr) (fun d => mkRnode (n_before d) (sadd (snd pr) (n_after d)) (n_wbefore d) (n_wafter d))
+                     (upd_node (snd pr) (fun d => mkRnode (sadd (fst pr) (n_before d)) (n_after d) (n_wbefore d) (n_wafter d)) ns))
+                 (rs_strong st) nodes0 in
+  let nodes2 := fold_left (fun ns (pr : nat * nat) =>
+                   upd_node (fst pr) (fun d => mkRnode (n_before d) (n_after d) (n_wbefore d) (sadd (snd pr) (n_wafter d)))
+                     (upd_node (snd pr) (fun d => mkRnode (n_before d) (n_after d) (sadd (fst pr) (n_wbefore d)) (n_wafter d)) ns))
+                 (rs_weak st) nodes1 in
+  (* mutual weak edges are dropped *)
+  let nodes3 := fold_left (fun ns (pr : nat * nat) =>
+                   let a := fst pr in let b := snd pr in
+                   if negb (memb b (n_wbefore (nth_node a ns))) then ns else
+                   let ns1 := upd_node b (fun d => mkRnode (n_before d) (n_after d) (sdel a (n_wbefore d)) (n_wafter d)) ns in
+                   let ns2 := upd_node a (fun d => mkRnode (n_before d) (n_after d) (sdel a (n_wbefore d)) (n_wafter d)) ns1 in
+                   let ns3 := upd_node a (fun d => mkRnode (n_before d) (n_after d) (n_wbefore d) (sdel b (n_wafter d))) ns2 in
+                   upd_node b (fun d => mkRnode (n_before d) (n_after d) (n_wbefore d) (sdel b (n_wafter d))) ns3)
+                 (rs_weak st) nodes2 in
+  let x0 := mkTopo nodes3 (rs_cannot st) [] [] [] [] in
+  let x1 := match initPos with
+            | Some ip => match getp funcs ip with
+                         | Some p => fold_left (fun x t => match alookup t (rs_down st) with
+                                                           | Some num => push_un funcs num x | None => x end)
+                                               (no_no te (pflow p FOut)) x0
+                         | None => x0 end
+            | None => x0 end in
+  let xf := topo_run te funcs (rs_down st) (rs_up st) (4 * (counter + 2) * (counter + 2)) x1 in
+  let out := t_out xf in
+  let missing := filter (fun i => negb (memb i (t_done xf))) idx in
+  let pick i := match getp funcs i with Some p => [p] | None => [] end in
+  let result := flat_map pick out ++ flat_map (fun i => map (set_cannot true) (pick i)) missing in
+  if length result =? n then Ok result else Err EB_INTERNAL.
